@@ -76,11 +76,15 @@ class NumberType(Type):
         """
         if unit:
             if self.unit and self.unit!=unit:
+                # a none value has no number to convert, but its unit must still be compatible
+                number = 1.0 if self.value is None else float(self.value)
                 if env is None:
-                    self.value = Quantity(float(self.value), self.unit).value(unit)
+                    number = Quantity(number, self.unit).value(unit)
                 else:
                     with UnitEnvironment(env.units):
-                        self.value = Quantity(float(self.value), self.unit).value(unit)
+                        number = Quantity(number, self.unit).value(unit)
+                if self.value is not None:
+                    self.value = number
                 self.unit = unit
         return self
  
